@@ -147,3 +147,16 @@ bounded_only('C11', 'bounded.c11',
     PDA_NOTE, ['CFG.intersection', 'CFG._intersection_*', 'PDA.intersection', '_PDAStateConverter', 'CFGVariableConverter'],
     'case = (grammar | PDA) x regular operand with the class it is presented as; non-trivial = both operands have a non-empty language',
     {'quick': '1500 grammar pairs + 1500 PDA pairs + operand-type cases; words <=3', 'thorough': '15000 + 15000 pairs, 8 hash seeds'})
+
+bounded_only('C05', 'bounded.c05',
+    'Bounded stand-in only: every token string of <=4 tokens over {a, b, space, ., |, *, (, ), $} (7381 texts) and 2500 rendered random expressions (depth <=3, all operator spellings, minimal and redundant parentheses, escaped operator symbols, damaged variants) are read by an independent precedence-climbing parser; Regex must accept exactly the well-formed ones (else MisformedRegexError only) and accepts / to_epsilon_nfa / to_cfg / str round trip / combinators must agree with the reference matcher on all words of length <=3.',
+    'Trusted: specs/regex.py (tokenizer, parser, matcher written from the documented grammar); escapes are only generated as stand-alone tokens; symbols are 1-3 characters.',
+    ['RegexReader (tokenisation, precedence by inserting parentheses)', 'Regex.to_epsilon_nfa (Thompson)', 'Regex.to_cfg', 'Regex.accepts', 'Regex.__repr__', 'union/concatenate/kleene_star'],
+    'case = one text (plus a second one for combinators); non-trivial = well-formed, non-empty language, top-level operator',
+    {'quick': '7381 exhaustive token strings + 2500 random renderings; words <=3', 'thorough': '<=5 tokens exhaustive (66430) + 25000 renderings, 8 hash seeds'})
+bounded_only('C07', 'bounded.c07',
+    'Bounded stand-in only: the specification is CPython re.fullmatch (an external executable, not a spec function), so the contract accepts(s) == (re.fullmatch(p, s) is not None) and "rejected by re => rejected" is enforced at run time on patterns generated from the documented subset (depth <=3: literals, escaped metacharacters, ., sets, negated sets, ranges, alternation, groups, * + ? {m} {m,n} with m in 0..2, \\d \\s \\w) and 51 strings (incl. the empty one) per pattern over a 10-character printable alphabet, length <=4.',
+    'Trusted: CPython re as the oracle. The seven textual rewrite passes (str.replace, int()) are outside both solvers string theories - stated, not attempted.',
+    ['PythonRegex.__init__ rewrite pipeline', '_preprocess_brackets*', '_preprocess_negation', '_preprocess_positive_closure', '_add_repetition', '_preprocess_optional', '_separate', '_recombine'],
+    'case = one pattern with its sampled strings; non-trivial = pattern uses a quantifier, a set or an alternation',
+    {'quick': '1616 patterns x 51 strings', 'thorough': '16016 patterns x 51 strings'}, hashseeds={'quick': [0], 'thorough': [0, 1]})
